@@ -178,6 +178,8 @@ package getty
 //@   ensures result1 == nil && isT(msg, message.GlobalBeginRequest) ==> isT(result0, message.GlobalBeginResponse)
 //@   ensures result1 == nil && isT(msg, message.GlobalCommitRequest) ==> isT(result0, message.GlobalCommitResponse)
 //@   ensures result1 == nil && isT(msg, message.GlobalRollbackRequest) ==> isT(result0, message.GlobalRollbackResponse)
+//@   ensures result1 == nil && isT(msg, message.BranchRegisterRequest) ==> isT(result0, message.BranchRegisterResponse)
+//@   ensures result1 == nil && isT(msg, message.BranchReportRequest) ==> isT(result0, message.BranchReportResponse)
 
 // ---- C14: request/response correlation (sequential contracts; sync.Map operations are atomic)
 
